@@ -36,6 +36,7 @@ real_sleep = _time_mod.sleep
 Empty = _queue_mod.Empty
 Full = _queue_mod.Full
 
+HOLD = 'injected hold'      # waitobj of a thread parked by the harness at a pre-emption point (not a wait of the code under test)
 CUR = None          # the active Sim (one per case), or None -> pass-through behaviour
 
 
